@@ -1,5 +1,6 @@
 """C17 native harness: real pydoctor.sphinx functions against the sidecar contracts (bounded, labelled so)."""
 from __future__ import annotations
+import os
 import itertools
 import random
 import zlib
@@ -319,6 +320,104 @@ def _check_dollar(case):
     return fails or None
 
 
+def _resolve_cases(tier, seed):
+    for scope in ('module', 'function', 'class', 'method', 'class_with_member', 'method_of_class_with_member'):
+        yield {'scope': scope}
+
+
+def _check_resolve(case):
+    """usable lines of a partly malformed remote inventory resolve from every docstring of the project - also where the first part of a
+    dotted name is, by accident, the name of a member of the enclosing class"""
+    from pydoctor import linker
+    from twisted.web.template import flattenString
+    inv, log = _inv()
+    payload = ('socket py:module 1 library/socket.html#module-$ -\nbroken line\nsocket.socket py:class 1 library/socket.html#$ -\n'
+               'also bad 1\nsocket.socket.connect py:method 1 library/socket.html#$ -\nos.path.join py:function 1 library/os.path.html#$ -\n')
+    inv._links = inv._parseInventory('http://base', payload)
+    src = ('"mod"\ndef func():\n    "doc"\nclass Plain:\n    "doc"\n    def meth(self):\n        "doc"\n'
+           'class WithMember:\n    "doc"\n    socket = None\n    os = None\n    def meth(self):\n        "doc"\n')
+    system = fixtures.build_system([('rm', src, False)])
+    system.intersphinx = inv
+    ctx = {'module': 'rm', 'function': 'rm.func', 'class': 'rm.Plain', 'method': 'rm.Plain.meth', 'class_with_member': 'rm.WithMember',
+           'method_of_class_with_member': 'rm.WithMember.meth'}[case['scope']]
+    ob = system.allobjects[ctx]
+    fails = []
+    import contextlib, io
+    for name, want in (('socket.socket', 'http://base/library/socket.html#socket.socket'), ('socket.socket.connect', 'http://base/library/socket.html#socket.socket.connect'),
+                       ('os.path.join', 'http://base/library/os.path.html#os.path.join')):
+        with contextlib.redirect_stdout(io.StringIO()):
+            tag = ob.docstring_linker.link_xref(name, name, 0)
+        out = []
+        flattenString(None, tag).addCallback(out.append)
+        html_ = out[0].decode('utf-8') if out else ''
+        if f'href="{want}"' not in html_:
+            fails.append({'observed': f'L{{{name}}} in the docstring of {ctx} is rendered as {html_[:160]!r}', 'required': f'a link to {want} (a usable line of the inventory)',
+                          'class': 'usable-line-unresolved'})
+    return fails or None
+
+
+def _ext_cases(tier, seed):
+    yield {'sphinx_ext': True}
+
+
+def _check_sphinx_ext(case):
+    """pydoctor's Sphinx extension: the inventory it registers for intersphinx when the builder starts is a file that exists at that moment
+    and holds one entry per documented object; after the build the inventory is in the output directory"""
+    import contextlib, io, shutil, tempfile, textwrap
+    from pathlib import Path
+    from types import SimpleNamespace
+    from pydoctor.sphinx_ext import build_apidocs
+    tmp = Path(tempfile.mkdtemp(prefix='c17ext.', dir='/var/tmp'))
+    cwd = os.getcwd()
+    fails = []
+    try:
+        pkg = tmp / 'src' / 'extpkg'
+        pkg.mkdir(parents=True)
+        (pkg / '__init__.py').write_text('"""Package."""\n')
+        (pkg / 'mod.py').write_text('"""Module."""\nclass K:\n    """A class."""\n    def meth(self):\n        """A method."""\n    class Inner:\n        """Nested."""\n'
+                                    '        attr = 1\n        """An attribute."""\ndef func():\n    """A function."""\n')
+        outdir = tmp / 'sphinx_out'
+        outdir.mkdir()
+        mapping = {}
+        app = SimpleNamespace(builder=SimpleNamespace(name='html'), outdir=str(outdir),
+                              config=SimpleNamespace(pydoctor_args=['--html-output={outdir}/api', '--project-name=extpkg', '--project-base-dir=' + str(tmp / 'src'), str(pkg)],
+                                                     pydoctor_url_path='/en/{rtd_version}/api/', intersphinx_mapping=mapping))
+        os.chdir(tmp)
+        with contextlib.redirect_stderr(io.StringIO()), contextlib.redirect_stdout(io.StringIO()):
+            build_apidocs.on_builder_inited(app)
+        entry = mapping.get('main-api-docs')
+        if not entry:
+            return {'observed': f'no inventory registered for intersphinx: {mapping!r}', 'required': "an entry 'main-api-docs'", 'class': 'ext-no-mapping'}
+        _, (url, invs) = entry
+        expected = {'extpkg': 'index.html', 'extpkg.mod': 'extpkg.mod.html', 'extpkg.mod.K': 'extpkg.mod.K.html', 'extpkg.mod.K.meth': 'extpkg.mod.K.html#meth',
+                    'extpkg.mod.K.Inner': 'extpkg.mod.K.Inner.html', 'extpkg.mod.K.Inner.attr': 'extpkg.mod.K.Inner.html#attr', 'extpkg.mod.func': 'extpkg.mod.html#func'}
+        for inv_path in invs:
+            pth = Path(inv_path)
+            if not pth.is_file():
+                fails.append({'observed': f'the inventory handed to Sphinx ({inv_path}) does not exist when the inventories are loaded', 'required': 'an existing file',
+                              'class': 'ext-inventory-missing'})
+                continue
+            inv, log = _inv()
+            payload = inv._getPayload('http://b', pth.read_bytes())
+            links = inv._parseInventory('http://b', payload)
+            got = {k: v[1] if isinstance(v, tuple) else v for k, v in links.items()}
+            inv._links = links
+            for name, loc in expected.items():
+                if inv.getLink(name) != 'http://b/' + loc:
+                    fails.append({'observed': f'{name} -> {inv.getLink(name)!r} in the inventory handed to Sphinx', 'required': 'http://b/' + loc, 'class': 'ext-entry'})
+            if set(links) != set(expected):
+                fails.append({'observed': f'entries {sorted(set(links) ^ set(expected))} differ', 'required': 'one entry per documented object', 'class': 'ext-entries'})
+        (outdir / 'api').mkdir(exist_ok=True)
+        with contextlib.redirect_stderr(io.StringIO()), contextlib.redirect_stdout(io.StringIO()):
+            build_apidocs.on_build_finished(app, None)
+        if not (outdir / 'api' / 'objects.inv').is_file():
+            fails.append({'observed': 'no objects.inv in the output directory after the build', 'required': 'present', 'class': 'ext-final-missing'})
+    finally:
+        os.chdir(cwd)
+        shutil.rmtree(tmp, ignore_errors=True)
+    return fails or None
+
+
 def _axiom_cases(tier, seed):
     yield {'all': True}
 
@@ -349,6 +448,13 @@ HARNESS = {
                  'written objects.inv followed into the written HTML'},
     f'{F}:SphinxInventory.getLink': {'cases': _dollar_cases, 'check': _check_dollar,
         'bound': "7 entries using the '$' shorthand after '#', after 'module-', alone, in the middle, not at all"},
+    'pydoctor/linker.py:_EpydocLinker._resolve_identifier_xref': {'cases': _resolve_cases, 'check': _check_resolve,
+        'covers': ['pydoctor/linker.py:_EpydocLinker.link_xref', 'pydoctor/linker.py:_EpydocLinker.look_for_intersphinx'],
+        'bound': '3 dotted names listed by usable lines of a partly malformed inventory x 6 docstring contexts (module, function, class, method, and a class / method '
+                 'whose class has a member named like the first part)'},
+    'pydoctor/sphinx_ext/build_apidocs.py:on_builder_inited': {'cases': _ext_cases, 'check': _check_sphinx_ext,
+        'covers': ['pydoctor/sphinx_ext/build_apidocs.py:on_build_finished'],
+        'bound': "one package driven through the Sphinx extension's two event handlers with a stand-in application object"},
     'axioms': {'cases': _axiom_cases, 'check': _check_axioms,
         'bound': 'every axiom instantiated with all strings of length <= 3 over {a, space, 1, -, p, _}'},
 }
